@@ -6,6 +6,7 @@ import (
 	"encoding/json"
 	"fmt"
 	"math"
+	"math/big"
 	"sync/atomic"
 
 	"verifharness/internal/gen"
@@ -516,6 +517,97 @@ func runC02(c *ctx) {
 			}
 		}
 	})
+	// (e4) items that reach the encoder through the SML parser from long decimal literals: the bytes are the IEEE-754
+	// pattern nearest to the decimal that was written (one rounding to the item's width)
+	c.parallel(c.pick(6000, 60000), func(i int, r *rng.R) {
+		k := ref.F4
+		if i%5 == 4 {
+			k = ref.F8
+		}
+		const prec = 600
+		var lo, hi *big.Float
+		if k == ref.F4 {
+			b := gen.F4Bits(r) &^ 0x80000000
+			if b >= 0x7F7FFFFF {
+				b = 0x7F7FFFFE - uint32(r.Intn(100))
+			}
+			lo = new(big.Float).SetPrec(prec).SetFloat64(float64(math.Float32frombits(b)))
+			hi = new(big.Float).SetPrec(prec).SetFloat64(float64(math.Float32frombits(b + 1)))
+		} else {
+			b := gen.F8Bits(r) &^ (1 << 63)
+			if b >= 0x7FEFFFFFFFFFFFFF {
+				b = 0x7FEFFFFFFFFFFFFE - uint64(r.Intn(100))
+			}
+			lo = new(big.Float).SetPrec(prec).SetFloat64(math.Float64frombits(b))
+			hi = new(big.Float).SetPrec(prec).SetFloat64(math.Float64frombits(b + 1))
+		}
+		mid := new(big.Float).SetPrec(prec).Add(lo, hi)
+		mid.Quo(mid, big.NewFloat(2))
+		eps := new(big.Float).SetPrec(prec).Quo(mid, new(big.Float).SetPrec(prec).SetFloat64(math.Pow(10, float64(25+r.Intn(16)))))
+		if r.Bool() {
+			mid.Add(mid, eps)
+		} else {
+			mid.Sub(mid, eps)
+		}
+		if r.Bool() {
+			mid.Neg(mid)
+		}
+		text := mid.Text('e', 60)
+		exact, _, err := big.ParseFloat(text, 10, 2000, big.ToNearestEven)
+		if err != nil {
+			return
+		}
+		var want []byte
+		if k == ref.F4 {
+			f, _ := exact.Float32()
+			want = ref.Encode(&ref.Item{Kind: k, Slots: []ref.Slot{{Uint: uint64(math.Float32bits(f))}}})
+		} else {
+			f, _ := exact.Float64()
+			want = ref.Encode(&ref.Item{Kind: k, Slots: []ref.Slot{{Uint: math.Float64bits(f)}}})
+		}
+		src := fmt.Sprintf("S1F1 W H->E <%s %s> .", k, text)
+		msgs, errs, _, o := smlParse(src)
+		if o.Panicked || len(errs) > 0 || len(msgs) != 1 {
+			c.Class("sml-sourced/not-accepted(C05's-subject)")
+			return
+		}
+		var got []byte
+		real.Try(func() { got = msgs[0].SetSessionIDAndSystemBytes(1, []byte{0, 0, 0, 1}).ToBytes() })
+		c.Note(rng.HashStr(src), true)
+		c.Class("item/sml-sourced-long-decimal")
+		if len(got) < 14 || !bytes.Equal(got[14:], want) {
+			c.Violation("C02/sml-sourced/bytes-differ", fmt.Sprintf("%s encodes to %x, the pattern nearest to the decimal is %x", src, clipB(got), want), c02Case{Op: "sml", Wire: src})
+		}
+	})
+	// adjacent list elements that are equal except for the sign of a zero, or equal altogether (elements are encoded one
+	// by one, whatever they look like next to each other)
+	for _, k := range []ref.Kind{ref.F4, ref.F8} {
+		neg := uint64(1) << 63
+		if k == ref.F4 {
+			neg = 1 << 31
+		}
+		one := math.Float64bits(1.5)
+		if k == ref.F4 {
+			one = uint64(math.Float32bits(1.5))
+		}
+		z := func(bits ...uint64) *ref.Item {
+			it := &ref.Item{Kind: k}
+			for _, b := range bits {
+				it.Slots = append(it.Slots, ref.Slot{Uint: b})
+			}
+			return it
+		}
+		for _, t := range []*ref.Item{
+			{Kind: ref.L, Children: []*ref.Item{z(0), z(neg)}},
+			{Kind: ref.L, Children: []*ref.Item{z(neg), z(0)}},
+			{Kind: ref.L, Children: []*ref.Item{z(0, one), z(neg, one), z(0, one)}},
+			{Kind: ref.L, Children: []*ref.Item{z(neg), z(neg), z(0), z(0), z(neg)}},
+			{Kind: ref.L, Children: []*ref.Item{{Kind: ref.L, Children: []*ref.Item{z(0)}}, {Kind: ref.L, Children: []*ref.Item{z(neg)}}}},
+			{Kind: ref.L, Children: []*ref.Item{z(0, neg), z(neg, 0)}},
+		} {
+			c02Item(c, t, "zero-sign-neighbours")
+		}
+	}
 	// messages whose length field needs its fourth byte (text of 2^24 bytes or more): one giant item, and many large ones
 	{
 		big := &ref.Item{Kind: ref.A, Str: bytes.Repeat([]byte("q"), ref.MaxBytes-5)}
@@ -550,7 +642,7 @@ func runC02(c *ctx) {
 			c.Violation("C02/msg/partial-bytes-for-a-tree-with-an-empty-item", fmt.Sprintf("item bytes %x, message bytes %x", clipB(itemBytes), clipB(msgBytes)), c02Case{Op: "empty-item"})
 		}
 	}
-	c.Required = []string{"empty-item-inside-a-list", "msg/length>=2^24", "msg/session-unset-again", "msg/complete", "msg/+vars", "msg/+optW", "msg/+nosession", "f4/finite-patterns", "f4round/in-range", "f4round/overflow", "lenbytes=3/A", "lenbytes=2/L", "item/decoded-from-another-spelling", "item/derived-by-several-fills"}
+	c.Required = []string{"empty-item-inside-a-list", "msg/length>=2^24", "msg/session-unset-again", "msg/complete", "msg/+vars", "msg/+optW", "msg/+nosession", "f4/finite-patterns", "f4round/in-range", "f4round/overflow", "lenbytes=3/A", "lenbytes=2/L", "item/decoded-from-another-spelling", "item/derived-by-several-fills", "item/sml-sourced-long-decimal", "item/zero-sign-neighbours"}
 }
 
 func replayC02(c *ctx, raw json.RawMessage) {
@@ -570,5 +662,7 @@ func replayC02(c *ctx, raw json.RawMessage) {
 		c02F4Round(c, cs.Bits)
 	case "decoded":
 		c02Decoded(c, cs)
+	case "sml":
+		fmt.Println("C02 sml-sourced case: re-parse", cs.Wire, "and compare the item bytes with the correctly rounded pattern")
 	}
 }
